@@ -238,6 +238,30 @@ func init() {
 		}
 		return sb.String()
 	})
+	// runs that end at the operation budget, in several instances and at
+	// different places of their input: the complete error text of each, and
+	// the first error value looked at again after the later runs (an error
+	// handed out must not change afterwards)
+	add("budget", func() string {
+		var sb strings.Builder
+		progs := []string{"{ } loop", "\n\n\n1 2 add { pop 1 } loop", "/x 5 def\n\n{ x pop } loop", "{ } loop"}
+		var first error
+		var firstText string
+		for i, p := range progs {
+			intp := postscript.NewInterpreter()
+			intp.MaxOps = 200 + 10*i
+			err := intp.ExecuteString(p)
+			if i == 0 {
+				first = err
+				firstText = fmt.Sprint(err)
+			}
+			fmt.Fprintf(&sb, "%v|%d;", err, intp.NumOps)
+		}
+		if fmt.Sprint(first) != firstText {
+			fmt.Fprintf(&sb, "UNSTABLE-RESULT error of the first run: %q became %q;", firstText, fmt.Sprint(first))
+		}
+		return sb.String()
+	})
 	// ligature names whose first component denotes 1, 2, 3 or 4 characters
 	// (every multi-character entry of the glyph list and some single ones):
 	// two look-ups that share the first component, the first result examined
@@ -598,7 +622,7 @@ func checkHistory(c *historyCase) (msg string, effective int) {
 			return "a ligature name does not map to the concatenation of its components' texts, or a component alone maps differently after the ligature was looked up: " + clipStr(r[i:]), 0
 		}
 		if i := strings.Index(r, "UNSTABLE-RESULT"); i >= 0 {
-			return "a value returned by a name look-up changed when another name was looked up (shared mutable state behind a package-level function): " + clipStr(r[i:]), 0
+			return "a value handed out by an earlier call (a name look-up result, an error) changed after later calls (mutable state shared behind a package-level function or value): " + clipStr(r[i:]), 0
 		}
 	}
 	before := workloadDigest()
@@ -787,7 +811,7 @@ func TestRaceChild(t *testing.T) {
 		}
 		if c.FirstUse {
 			// name look-ups and writers first: first-use initialisation
-			firstItems := []string{"names-multi", "names-shared-first", "names-compat", "build", "names", "queries"}
+			firstItems := []string{"names-multi", "names-shared-first", "names-compat", "build", "names", "queries", "budget"}
 			items[g][0] = itemIndex(firstItems[g%len(firstItems)])
 			if len(items[g]) > 1 {
 				items[g][1] = itemIndex([]string{"writepdf", "afm"}[g%2])
